@@ -493,6 +493,10 @@ def rel3(ctx, c):
                     "the forward estimate sums statements [this%+d, rel%+d) plus %d; the displacement spans statements this+1 .. rel-1" % (w_lo, w_hi, cst), where)
         else:
             # needed: statements rel .. this-1 plus this statement's final size (ind_sz + 1 for the 8-bit form)
+            if w_hi > 1:
+                c.finding(site + ":window-end", "the window runs to statement this%+d" % (w_hi - 1),
+                          "the backward estimate reads statements up to this%+d: when the PC-relative statement is the last one of the program that statement does not exist and a valid "
+                          "program is rejected with an index error" % (w_hi - 1), where)
             covers = w_lo <= 0 and w_hi >= 0
             includes_self = w_hi >= 1
             # with self in the window its max_size (ind_sz + 2) is counted: margin = cst + 1; without: margin = cst - (ind_sz + 1) <= cst - 3
@@ -530,6 +534,12 @@ def rel3(ctx, c):
         c.check(good, "%s:address-expression-predicate" % name, "guarded by left.is_address_expression()", "guarded by %s" % test,
                 "%s takes the label index out of an expression operand under `%s`; expressions containing a label are tagged ADDRESS_EXPRESSION by resolve(), "
                 "so any other predicate sends label+n,PCR through the plain-label path (target read as statement 0)" % (name, test), repo.loc(f, node))
+    for n_ in ast.walk(fn.node):
+        if isinstance(n_, ast.If) and ".is_address_expression()" in U(n_.test) and all(isinstance(b_, ast.Pass) or (isinstance(b_, ast.Expr) and isinstance(b_.value, ast.Constant)) for b_ in n_.body) \
+                and not n_.orelse:
+            c.finding("determine_pcr_relative_sizes:address-expression-branch", "the label+n branch does nothing",
+                      "determine_pcr_relative_sizes tests for a label+n operand and then takes no index from it: the span is measured to statement %s instead of the label's statement, "
+                      "so the 8/16-bit decision for label+n,PCR is made on an unrelated distance" % "self.code_pkg.additional.int (0 for an expression)", repo.loc(fn, n_))
     if len(sites) < 2:
         c.undecided("address-expression-predicate", "sites-not-found", str([s[0] for s in sites]), where)
     ex = repo.method("ExpressionValue", "extract_address_index_from_expression", inherited=False)
